@@ -43,19 +43,30 @@ theorem Moved.rfl' {w : WM} (hok : RowsOK w) {e : Handle} {pi i : Nat} {prow : R
   subst hent
   rfl
 
-/-- the single move of a pack on an existing entity -/
+/-- the descriptors of the state the pack's target lives in are pooled -/
+theorem allKeys_packTarget {w : WM} {iss : List Handle} (hi : Inv ⟨w, iss⟩) (e : Handle) (isCreate : Bool)
+    (initial : Mask) (sh : Shared) (hshin : SharedIn w.pool sh) (p : PackSt) :
+    AllKeys (fun _ s => SharedIn w.pool s) (packTarget e isCreate initial sh w p).1 := by
+  rcases packTarget_cases e isCreate initial sh w p with ⟨_, _, pi, _, ht⟩ | ht
+  · rw [ht]; exact hi.shared
+  · rw [ht]; exact AllKeys.getArch (P := fun _ s => SharedIn w.pool s) (w := w) hi.shared p.final sh hshin
+
+/-- the single move of a pack on an existing entity; the target is the entity's own archetype when the component set
+did not change (the archetype may predate a dependency declaration: no lookup), else the archetype of the final
+(closed) set -/
 theorem packMoved_existing {w : WM} {iss : List Handle} (hi : Inv ⟨w, iss⟩) {e : Handle} {k pi i : Nat} {prow : Row}
     (hrow : (w.arch pi).rows[i]? = some prow) (hent : prow.ent = e)
     (hloc : w.locOf e = ⟨some pi, i⟩) (hord : ordOf iss e = some k) (pf : PackSt) (hfok : MaskOk pf.final)
-    (hfcl : ClosedUnder w.deps pf.final) :
+    (hfcl0 : pf.final = (w.arch pi).mask ∨ ClosedUnder w.deps pf.final) :
     ∃ vals1,
       Moved w (packMoved info e false (w.arch pi).mask (w.arch pi).shared w pf).1 e
-        (w.getArch pf.final (w.arch pi).shared).2 vals1 ∧
-      KeysSame (w.getArch pf.final (w.arch pi).shared).1 (packMoved info e false (w.arch pi).mask (w.arch pi).shared w pf).1 ∧
+        (packTarget e false (w.arch pi).mask (w.arch pi).shared w pf).2 vals1 ∧
+      KeysSame (packTarget e false (w.arch pi).mask (w.arch pi).shared w pf).1
+        (packMoved info e false (w.arch pi).mask (w.arch pi).shared w pf).1 ∧
       ((packMoved info e false (w.arch pi).mask (w.arch pi).shared w pf).1.arch
-        (w.getArch pf.final (w.arch pi).shared).2).mask = pf.final ∧
+        (packTarget e false (w.arch pi).mask (w.arch pi).shared w pf).2).mask = pf.final ∧
       ((packMoved info e false (w.arch pi).mask (w.arch pi).shared w pf).1.arch
-        (w.getArch pf.final (w.arch pi).shared).2).shared.data = (w.arch pi).shared.data ∧
+        (packTarget e false (w.arch pi).mask (w.arch pi).shared w pf).2).shared.data = (w.arch pi).shared.data ∧
       vals1.length = pf.final.length ∧
       (∀ x ∈ pf.final, x ∉ Mask.ofList (pf.src.map (·.1)) → vals1.getD (pf.final.idxOf x) none =
         if x ∈ (w.arch pi).mask then prow.vals.getD ((w.arch pi).mask.idxOf x) none else defaultVal info x) ∧
@@ -67,6 +78,26 @@ theorem packMoved_existing {w : WM} {iss : List Handle} (hi : Inv ⟨w, iss⟩) 
   have hpi : pi < w.archs.length := lt_of_row hrow
   have hpm : MaskOk (w.arch pi).mask := hi.keys.masks pi hpi
   have hplen : prow.vals.length = (w.arch pi).mask.length := hi.rows.vals pi i prow hrow
+  have hla : (w.locOf e).arch = some pi := by rw [hloc]
+  by_cases hfin : pf.final = (w.arch pi).mask
+  · -- the set did not change: the entity stays where it is
+    have hT := packTarget_stay e (w.arch pi).mask (w.arch pi).shared w pf pi hfin.symm hla
+    rw [packMoved_stay info e _ _ w pf pi hla hT, hT]
+    refine ⟨prow.vals, Moved.rfl' hi.rows hloc hrow hent, KeysSame.refl w, hfin.symm, rfl, by rw [hfin]; exact hplen, ?_, ?_⟩
+    · intro x hx _
+      rw [hfin] at hx ⊢
+      rw [if_pos hx]
+    · rw [hfin]
+      have h1 : (w.arch pi).mask.filter (fun c => !(w.arch pi).mask.contains c && (info c).callbacks &&
+          !(Mask.ofList (pf.src.map (·.1))).contains c) = [] := by
+        rw [List.filter_eq_nil_iff]; intro x hx; simp [hx]
+      have h2 : (w.arch pi).mask.filter (fun c => (info c).callbacks && !(w.arch pi).mask.contains c) = [] := by
+        rw [List.filter_eq_nil_iff]; intro x hx; simp [hx]
+      rw [h1, h2]; rfl
+  have hfcl : ClosedUnder w.deps pf.final := hfcl0.resolve_left hfin
+  have hT : packTarget e false (w.arch pi).mask (w.arch pi).shared w pf = w.getArch pf.final (w.arch pi).shared :=
+    packTarget_ne e false _ _ w pf (fun h => hfin h.symm)
+  rw [hT]
   have hcm : closedMask w.deps pf.final = pf.final := closedMask_eq_self hfok hfcl
   have hgloc : (w.getArch pf.final (w.arch pi).shared).1.locOf e = ⟨some pi, i⟩ := by
     unfold WM.locOf; rw [Mustache.Proofs.Rows.getArch_locs]; exact hloc
@@ -83,7 +114,7 @@ theorem packMoved_existing {w : WM} {iss : List Handle} (hi : Inv ⟨w, iss⟩) 
       have := hkey.1; rw [hti, hw1] at this; exact this.symm
     have hpk : packMoved info e false (w.arch pi).mask (w.arch pi).shared w pf = (w, []) := by
       unfold packMoved
-      simp only [Bool.false_eq_true, if_false, hgloc]
+      simp only [hT, Bool.false_eq_true, if_false, hgloc]
       simp only [hti, decide_true, Bool.true_or, if_true, hw1]
     rw [hpk, hti, hw1]
     refine ⟨prow.vals, Moved.rfl' hi.rows hloc hrow hent, KeysSame.refl w, hfin.symm, rfl, by rw [hfin]; exact hplen, ?_, ?_⟩
@@ -112,7 +143,7 @@ theorem packMoved_existing {w : WM} {iss : List Handle} (hi : Inv ⟨w, iss⟩) 
       simp [h1, h2]
     have hpk : packMoved info e false (w.arch pi).mask (w.arch pi).shared w pf = (w2, cbs1) := by
       unfold packMoved
-      simp only [Bool.false_eq_true, if_false, hgloc, hcond, hsome]
+      simp only [hT, Bool.false_eq_true, if_false, hgloc, hcond, hsome]
     rw [hpk]
     have hks : KeysSame (w.getArch pf.final (w.arch pi).shared).1 w2 :=
       externalMove_keysSame info _ _ e pi i _ (w2, cbs1) hsome (getArch_idx_lt w pf.final _)
